@@ -66,7 +66,8 @@ func (a *Agg) merge(k ckpt) {
 // Dirs used by the framework.
 type Env struct {
 	VerifDir string // /verif
-	BuildDir string // /verif/.build
+	OutDir   string // where evidence/ and replays/ are written (VerifDir unless VERIF_OUT_DIR is set: runs against scratch copies)
+	BuildDir string // <OutDir>/.build
 	Self     string // path of the running binary (children re-exec it)
 }
 
@@ -76,7 +77,11 @@ func selfEnv() Env {
 	if vd == "" {
 		vd = "/verif"
 	}
-	return Env{VerifDir: vd, BuildDir: filepath.Join(vd, ".build"), Self: self}
+	od := os.Getenv("VERIF_OUT_DIR")
+	if od == "" {
+		od = vd
+	}
+	return Env{VerifDir: vd, OutDir: od, BuildDir: filepath.Join(od, ".build"), Self: self}
 }
 
 type crash struct {
@@ -209,7 +214,7 @@ func Main(id string, tier Tier) int {
 	agg := &Agg{Prop: p, Tier: tier, Seed: seed, Counters: map[string]int64{}, digests: map[string]struct{}{}, Extra: map[string]interface{}{}}
 
 	os.RemoveAll(filepath.Join(env.BuildDir, "run", p.ID))
-	os.RemoveAll(filepath.Join(env.VerifDir, "replays", p.ID))
+	os.RemoveAll(filepath.Join(env.OutDir, "replays", p.ID))
 	os.RemoveAll(filepath.Join(env.BuildDir, "race", p.ID))
 
 	par := p.Parallel
@@ -447,7 +452,7 @@ func conclude(env Env, agg *Agg, total int, wall time.Duration) int {
 	newViol := 0
 	knownSeen := []string{}
 	var lines []string
-	repDir := filepath.Join(env.VerifDir, "replays", p.ID)
+	repDir := filepath.Join(env.OutDir, "replays", p.ID)
 	for _, sig := range sigs {
 		vs := bySig[sig]
 		sort.Slice(vs, func(i, j int) bool { return vs[i].Idx < vs[j].Idx })
@@ -520,7 +525,7 @@ func conclude(env Env, agg *Agg, total int, wall time.Duration) int {
 		"violations":  newViol,
 	}
 	b, _ := json.MarshalIndent(ev, "", " ")
-	evPath := filepath.Join(env.VerifDir, "evidence", p.ID+".json")
+	evPath := filepath.Join(env.OutDir, "evidence", p.ID+".json")
 	os.MkdirAll(filepath.Dir(evPath), 0o755)
 	if err := os.WriteFile(evPath, b, 0o644); err != nil {
 		fmt.Fprintf(os.Stderr, "cannot write evidence: %v\n", err)
